@@ -92,10 +92,11 @@ def verify_function(con, reg, repo="/repo", z3_ms=None, extra=None):
     # guards: reachability canaries (a contradictory precondition / invariant would prove everything): `False` must NOT be
     # provable from the hypotheses at function entry, at every loop body entry and at a return point
     can = []
+    gax = list(eng.global_axioms.values())
     for label, hyps in eng.reach:
-        can.append(Oblig("%s::canary::reach:%s" % (con.qual, label), "canary", hyps, z3.BoolVal(False)))
+        can.append(Oblig("%s::canary::reach:%s" % (con.qual, label), "canary", gax + list(hyps), z3.BoolVal(False)))
     for i, (st, rv) in enumerate(eng.return_states[:8]):
-        can.append(Oblig("%s::canary::must-fail:post-False#%d" % (con.qual, i), "canary", st.pc, z3.BoolVal(False)))
+        can.append(Oblig("%s::canary::must-fail:post-False#%d" % (con.qual, i), "canary", gax + list(st.pc), z3.BoolVal(False)))
     cres = solve.discharge(can, z3_ms=1500, use_cvc5=False)
     mf = [r for r in cres if "must-fail" in r["name"]]
     for r in cres:
